@@ -14,27 +14,49 @@ sampled on every run against the pipeline rows and the closed form.
 namespace ESR.C20
 open ESR.Gen.Single
 
-/-- the returned description length is `negloglike + codelen + aifeyn`, in that order -/
-theorem single_DL_is_sum : dlTerms = ["negloglike", "codelen", "aifeyn"] := by decide
+/-! The table names a value by where it comes from, never by the local variable that holds it (normal form of
+`harness/extractors/single.py`): `<module>.<routine>[i]` is the i-th element of the result of the only call of that
+routine on the path.  The theorems therefore hold for every source that computes the same values. -/
+
+/-- the Fisher routine of the pipeline's Fisher stage -/
+def fisher : String := "esr.fitting.test_all_Fisher.convert_params"
+/-- the tree code length routine of the generator -/
+def treeLen : String := "esr.generation.generator.aifeyn_complexity"
+/-- the optimiser of the pipeline's fitting stage -/
+def optimiser : String := "esr.fitting.test_all.optimise_fun"
+
+/-- the returned description length is `negloglike + codelen + aifeyn`, in that order: the (re-evaluated) likelihood
+term and the parameter code length are elements 1 and 3 of the result of ONE call of the Fisher routine
+(`return params, negloglike, deriv, codelen`), the tree code length is the result of `aifeyn_complexity` -/
+theorem single_DL_is_sum : dlTerms = [fisher ++ "[1]", fisher ++ "[3]", treeLen ++ "()"] := by decide
 
 /-- the likelihood term and the parameter code length are the two results of ONE call of the Fisher routine, the tree
 code length is `aifeyn_complexity` -/
 theorem terms_from_pipeline_routines :
-    termSource = [("negloglike", "convert_params"), ("codelen", "convert_params"), ("aifeyn", "generator.aifeyn_complexity")] := by
+    termSource = [(fisher, "1"), (fisher, "3"), (treeLen, "all")] := by
   decide
 
 /-- those routines are the pipeline's own: `optimise_fun` of the fitting stage, `convert_params` of the Fisher stage,
-`aifeyn_complexity` of the generator -/
+`aifeyn_complexity` of the generator (`run_sympify` is the likelihood object's own parser, as in the Fisher stage) -/
 theorem routines_are_the_pipelines :
-    routineModule = [("optimise_fun", "esr.fitting.test_all"), ("convert_params", "esr.fitting.test_all_Fisher"),
-      ("generator", "esr.generation.generator")] := by decide
+    routineModule = [("optimise_fun", "esr.fitting.test_all"), ("run_sympify", "likelihood"),
+      ("convert_params", "esr.fitting.test_all_Fisher"), ("aifeyn_complexity", "esr.generation.generator")] := by decide
 
 /-- fit, then parse, then Fisher/code length, then tree code length -/
-theorem call_order : callOrder = ["optimise_fun", "likelihood.run_sympify", "convert_params", "generator.aifeyn_complexity"] := by
+theorem call_order : callOrder = [optimiser, "likelihood.run_sympify", fisher, treeLen] := by
   decide
 
-/-- what is returned is the (possibly re-evaluated) likelihood term and that sum -/
-theorem returns_nll_and_DL : returns = ["(negloglike, DL)", "(negloglike, DL, params)"] := by decide
+/-- what is returned first, on every path with a description length (with and without `return_params`, whatever
+`verbose`), is the (possibly re-evaluated) likelihood term of the Fisher routine, and second that sum.  (Further
+elements of the tuple - the parameters - are not part of the property.) -/
+theorem returns_nll_and_DL :
+    returns.map (fun p => (p.1, p.2.take 2)) =
+      [("mse=0,params=0", [fisher ++ "[1]", fisher ++ "[1] + " ++ fisher ++ "[3] + " ++ treeLen ++ "()"]),
+       ("mse=0,params=1", [fisher ++ "[1]", fisher ++ "[1] + " ++ fisher ++ "[3] + " ++ treeLen ++ "()"])] := by decide
+
+/-- the second returned value is the sum of `dlTerms`, and its first term is the first returned value -/
+theorem returned_DL_is_dlTerms :
+    ∀ p ∈ returns, p.2[1]? = some (" + ".intercalate dlTerms) ∧ p.2[0]? = dlTerms.head? := by decide +kernel
 
 /-- The sum as a function: with exact arithmetic the returned description length minus the returned likelihood term is
 the parameter code length plus the tree code length. -/
